@@ -133,6 +133,15 @@ TEXTS = {
 }
 
 
+JOIN_TR = ("; " + CORR + TR.format("the right-side hash index loop of inner_join / join / full_join with its duplicate bookkeeping - "
+                                   "EqJoinIndex.v, 5 theorems: generated = Model/Join.build_index, a lookup gives exactly the ascending "
+                                   "matching right rows{}"))
+EXTRA = {"C09": JOIN_TR.format(""), "C10": JOIN_TR.format(""),
+         "C11": JOIN_TR.format("; the expect guard and the uniqueness flags - EqJoin.v, 9 theorems"),
+         "C20": "; " + CORR}
+JOIN_TECH = "Rocq proof over the join model (hash index + probe loops refine the nested-loop specification); index loop regenerated from source and re-proved; differential correspondence under 3 hash seeds"
+
+
 def main():
     props = [json.loads(l) for l in (VERIF / "properties.jsonl").read_text().splitlines() if l.strip()]
     checks, na, served = [], [], []
@@ -157,11 +166,13 @@ def main():
             "engine": "rocq-model+correspondence",
             "level_claimed": {
                 "category": "proof",
-                "text": getattr(mod, "LEVEL_TEXT", None) or TEXTS.get(pid, ("theorems about a hand-written Gallina model, " + CORR,))[0],
+                "text": (getattr(mod, "LEVEL_TEXT", None) or TEXTS.get(pid, ("theorems about a hand-written Gallina model, " + CORR,))[0])
+                        + EXTRA.get(pid, ""),
                 "design_ref": getattr(mod, "DESIGN_REF", "DESIGN.md section 4"),
             },
             "level_note": (TEXTS[pid][1] if pid in TEXTS else getattr(mod, "LEVEL_NOTE", TRUST.format(""))),
-            "technique": (TEXTS[pid][2] if pid in TEXTS else getattr(mod, "TECHNIQUE", "Rocq (Coq 8.16) proof over an executable model + differential correspondence check (vm_compute case files)")),
+            "technique": (TEXTS[pid][2] if pid in TEXTS else JOIN_TECH if pid in ("C09", "C10", "C11")
+                          else getattr(mod, "TECHNIQUE", "Rocq (Coq 8.16) proof over an executable model + differential correspondence check (vm_compute case files)")),
         })
     man = {
         "version": 1,
